@@ -153,6 +153,15 @@ def run(prop, tier, seed, nshards, only_sub, write_evidence=True):
         lines.append("  signature=%s\n    %s" % (sig, f["message"].replace("\n", "\n    ")[:800]))
         lines.append("VIOLATION property=%s replay=%s" % (prop, path))
         rc = 1
+    if os.environ.get("VERIF_EXPORT_KNOWN"):
+        # maintenance aid: write one observed example per known finding to replays/known/<id>.json (committed by hand)
+        kd = os.path.join(core.VERIF_ROOT, "replays", "known")
+        os.makedirs(kd, exist_ok=True)
+        for e in known:
+            kh = known_hits.get(e["id"])
+            if kh and kh["example"] is not None:
+                with open(os.path.join(kd, "%s.json" % e["id"]), "w") as fh:
+                    fh.write(core.dumps(dict(property=prop, sub=kh["sub"], finding=e["id"], case=kh["example"]), indent=1))
     for e in known:
         kh = known_hits.get(e["id"])
         seen = "observed in %d cases this run" % kh["count"] if kh else "not reached by this run's cases"
